@@ -80,8 +80,10 @@ def run_sets(res, wd, sets, name):
         lines += cond.EXT_DEFS
         for incname, inctxt in s.get("includes", []):
             lines.append("include %s %s" % (incname, yv.hx(inctxt.encode("latin-1"))))
-        for ns, src in s["units"]:
-            lines.append("add 0 %s %s" % (ns or "-", yv.hx(src.encode("latin-1"))))
+        for ui, (ns, src) in enumerate(s["units"]):
+            # s["via"]: the compiler entry point per unit (sources with a file name go through the file-name stack of the compiler)
+            via = (s.get("via") or ["add"])[ui % len(s.get("via") or ["add"])]
+            lines.append("%s 0 %s %s" % (via, ns or "-", yv.hx(src.encode("latin-1"))))
         lines += ["getrules 0 0", "cdestroy 0", "scanner 0 0"]
         for b in s["bufs"]:
             lines += ["data 1 %s" % yv.hx(b), "scan 0 1 mem - - -"]
@@ -397,6 +399,10 @@ def units_check(res, r, wd, tier):
             inc2 = ("inc_b_%d" % i, bodies[-1])
             inc1 = ("inc_a_%d" % i, "\n".join(bodies[1:-1]) + '\ninclude "%s"\n' % inc2[0])
             variants.append({"units": [(None, bodies[0] + '\ninclude "%s"\n' % inc1[0])], "includes": [inc1, inc2], "cases": cases, "bufs": bufs})
+        # the same rules one per source, padded to 20 sources, through file descriptors / files with names / strings in turn
+        pad_rules = ["rule pad%d_%d { condition: false }" % (i, k) for k in range(max(0, 20 - len(bodies)))]
+        for via in (["addfd"], ["addfile"], ["addfd", "add", "addfile", "addbytes"]):
+            variants.append({"units": [(None, b_) for b_ in bodies + pad_rules], "cases": cases, "bufs": bufs, "via": via})
         sets.append(variants)
     flat = [v for vs in sets for v in vs]
     run, per = run_sets(res, wd, flat, "c05_units")
@@ -409,7 +415,9 @@ def units_check(res, r, wd, tier):
         for j, v in enumerate(vs):
             p = per.get(k + j)
             res.count(1, ("units", k + j))
-            if (p is None) != (base is None) or (p and base and (p["ok"] != base["ok"] or (p["ok"] and p["scans"] != base["scans"]))):
+            # (variants may carry padding rules of their own: the rules of the base variant are compared)
+            proj = lambda q: [{kk: vv for kk, vv in sc.items() if not kk[1].startswith("pad")} for sc in q["scans"]]
+            if (p is None) != (base is None) or (p and base and (p["ok"] != base["ok"] or (p["ok"] and proj(p) != proj(base)))):
                 res.violation("the same rule text gives different results when cut into sources/includes as %s" % json.dumps([u[1][:60] for u in v["units"]])[:300],
                               yv.save_replay("C05", "units_%d_%d" % (k, j), {"units": v["units"], "includes": v.get("includes")}))
             else:
